@@ -13,7 +13,7 @@ META = {
                  "dominating bound; R03.4 no recursion whose depth is controlled by the input, no VLA with an unbounded bound; "
                  "R03.5 interval check of every signed arithmetic/shift/division reachable from the read entry points; R03.6 "
                  "inet_ntop sources have a checked length; R03.7 every throw is std::exception-derived, no handler on the read "
-                 "path, every tool main wraps its read-API calls in a try with a std::exception/... handler that returns. R03.8: a reference/pointer/iterator into a vector, string or deque is not used after a call that may reallocate or shrink the container. R03.9: a cursor that subscripts the input advances by a step whose interval is >= 1. The read side is everything reachable from the decoder, the reader, the renderers and the five tool mains. R03.3: a min() bound only sanitises an allocation size when the bound is a constant or the size of an existing container - members and parameters may themselves come from the input.",
+                 "path, every tool main wraps its read-API calls in a try with a std::exception/... handler that returns. R03.8: a reference/pointer/iterator into a vector, string or deque is not used after a call that may reallocate or shrink the container. R03.9: a cursor that subscripts the input advances by a step whose interval is >= 1. The read side is everything reachable from the decoder, the reader, the renderers and the five tool mains. R03.10: the container FilePreamble::read appends the input's block parameters to is tested for emptiness on every accepting path and is what m_block_parameters holds afterwards (callers take entry 0 outside any handler). R03.3: a min() bound only sanitises an allocation size when the bound is a constant or the size of an existing container - members and parameters may themselves come from the input.",
     "explanation": "Clause-by-clause static rules over the functions reachable from the read entry points (resolved call graph). "
                    "Full memory safety of C++ is not decided: use-after-free in general, uninitialised reads and libstdc++/boost "
                    "internals are outside reach (C19 covers the one ownership hazard the code has).",
@@ -665,6 +665,62 @@ def check_progress(run, rule, fns, facts):
     run.floor(rule, 1, "input cursors advanced by a computed step")
 
 
+def check_preamble_nonempty(run, rule):
+    """The file preamble a reader accepts has at least one set of block parameters: CdnsExporter's constructor, the block
+    reader and the tools take entry 0 (or the entry a block names) without a handler around them, relying on it.  In
+    FilePreamble::read the container the input's entries are appended to is tested for emptiness on every path that does
+    not throw, and that container is what m_block_parameters holds afterwards (directly, or committed by swap / move /
+    assignment after the test)."""
+    facts = run.facts
+    f = facts.fn("CDNS::FilePreamble::read", rule=rule)
+    env = Env(f["body"])
+    final = ("this", "m_block_parameters")
+    appended = set()
+    for c in ir.calls_in(f["body"]):
+        if c.get("k") == "MCall" and callee_name(c) in ("push_back", "emplace_back", "insert", "emplace") and path(c.get("recv")):
+            rp = path(c.get("recv"))
+            if env is not None:
+                rp = env.resolve_ref_path(rp)
+            appended.add(rp)
+    for lam in [n for n in ir.walk(f["body"]) if n.get("k") == "Lambda"]:
+        for c in ir.calls_in(lam.get("body")):
+            if c.get("k") == "MCall" and callee_name(c) in ("push_back", "emplace_back", "insert", "emplace") and path(c.get("recv")):
+                appended.add(path(c.get("recv")))
+    order = {id(x): i for i, x in enumerate(ir.walk(f["body"]))}
+    known = {}          # container path -> position of the test after which it is known non-empty
+    for st in ir.stmts(f["body"]):
+        if st.get("k") == "If":
+            for a in conjuncts(ir.fallthrough(st, env)):
+                if a[0] == "nonempty":
+                    known[tuple(a[1])] = order[id(st)]
+    commits = []
+    for lp, rhs, node in consumption.assignment_targets(ir.stmts(f["body"])):
+        if lp == final and path(unwrap_all_casts(rhs)):
+            commits.append((path(unwrap_all_casts(rhs)), order[id(node)]))
+    for c in ir.calls_in(f["body"]):
+        if c.get("k") == "MCall" and callee_name(c) == "swap" and len(c.get("args", [])) == 1:
+            a, b = path(c.get("recv")), path(c["args"][0])
+            if a == final and b:
+                commits.append((b, order[id(c)]))
+            elif b == final and a:
+                commits.append((a, order[id(c)]))
+    ok, why = None, "where the accepted block parameters come from is not understood (appended to %s)" % sorted(path_str(a) for a in appended)
+    if final in appended:
+        ok = final in known
+        why = "the block parameters read from the input are tested for emptiness before the preamble is accepted" if ok else \
+            "m_block_parameters is filled from the input but an empty array is not refused: the exporter's constructor and the tools take entry 0 of an accepted preamble"
+    elif commits:
+        src, at = commits[-1]
+        if src in appended:
+            ok = src in known and known[src] < at
+            why = "the entries are read aside, tested for emptiness and then committed to m_block_parameters" if ok else \
+                "the entries read from the input go to %s, which is committed to m_block_parameters without having been tested for emptiness%s: a preamble " \
+                "with an empty block-parameters array is accepted, and cdns-merge / CdnsExporter then take entry 0 of it outside any handler" % (
+                    path_str(src), (" (the test looks at %s)" % ", ".join(sorted(path_str(k) for k in known))) if known else "")
+    run.ob(rule, "FilePreamble::read:block-parameters-non-empty", ok, f, f["line"], why)
+    run.floor(rule, 1, "accepted preamble has block parameters")
+
+
 def check(run):
     facts = run.facts
     reach, mains, cg = read_side(facts)
@@ -695,3 +751,4 @@ def check(run):
     check_invalidation(run, "R03.8", facts)
     check_progress(run, "R03.9", fns, facts)
     check_exceptions(run, "R03.7", reach, mains)
+    check_preamble_nonempty(run, "R03.10")
